@@ -63,7 +63,46 @@ def function_replace_chain(fi: FuncInfo, project) -> list[tuple[str, str]]:
             rc = replace_chain(n.value)
             if rc:
                 steps.append((n.lineno, rc[1]))
+    # one-pass `x.translate(str.maketrans({c: repl, ...}))`: the sequential chain it is equivalent to, when there is one
+    for n in walk_no_nested(fi.node):
+        if isinstance(n, (ast.Assign, ast.Return)) and isinstance(n.value, ast.Call) and isinstance(n.value.func, ast.Attribute) and n.value.func.attr == "translate" and len(n.value.args) == 1:
+            tc = translate_chain(fi, project, n.value.args[0])
+            if tc:
+                steps.append((n.lineno, tc))
     return [p for _ln, ps in sorted(steps, key=lambda x: x[0]) for p in ps]
+
+
+def translate_chain(fi: FuncInfo, project, table: ast.AST) -> list[tuple[str, str]] | None:
+    """`str.maketrans({c1: r1, ...})` (single-character string keys, string replacements), given directly or through a module
+    constant: a single pass that replaces each ci by ri equals the sequential chain `.replace(ci, ri)` taken in any order in
+    which no step rewrites the output of an earlier one, i.e. ci comes before cj whenever ci occurs in rj (i != j). Returns that
+    chain (ties in source order), or None when the table is not of this form or no such order exists."""
+    t = table
+    if isinstance(t, ast.Name) and fi.module.has_const(t.id):
+        try:
+            t = fi.module.const_node(t.id)
+        except Exception:
+            return None
+    if not (isinstance(t, ast.Call) and ast.unparse(t.func) == "str.maketrans" and len(t.args) == 1 and isinstance(t.args[0], ast.Dict) and not t.keywords):
+        return None
+    d = t.args[0]
+    pairs: list[tuple[str, str]] = []
+    for k, v in zip(d.keys, d.values):
+        if not (isinstance(k, ast.Constant) and isinstance(k.value, str) and len(k.value) == 1 and isinstance(v, ast.Constant) and isinstance(v.value, str)):
+            return None
+        pairs.append((k.value, v.value))
+    if len({k for k, _ in pairs}) != len(pairs):
+        return None
+    out: list[tuple[str, str]] = []
+    rest = list(pairs)
+    while rest:
+        # next: a key that no remaining OTHER step must precede, i.e. whose own replacement contains no other remaining key
+        nxt = next((p for p in rest if not any(q[0] in p[1] for q in rest if q is not p)), None)
+        if nxt is None:
+            return None
+        out.append(nxt)
+        rest.remove(nxt)
+    return out
 
 
 def apply_chain(s: str, chain: list[tuple[str, str]]) -> str:
